@@ -74,6 +74,10 @@ def check(prop, tier, seed):
         if p["expect"] == "compile" and r["rc"] != 0:
             bad_controls.add(p["definition"])
             p["stderr"] = r["stderr"][-600:]
+    for p in probes:
+        if p["expect"].startswith("stub-") and (p["rc"] == 0) != (p["expect"] == "stub-accept"):
+            raise HarnessError("stub type %s does not have the %s property its expectation assumes" % (p["stub_type"], p["trait"]))
+    probes = [p for p in probes if not p["expect"].startswith("stub-")]
     findings = {}
     gate = {"accepted": 0, "rejected": 0}
     for p in probes:
@@ -92,8 +96,9 @@ def check(prop, tier, seed):
     thrsim = os.path.join(dst, "thrsim")
     replay_dir = os.path.join(out, "schedules")
     os.makedirs(replay_dir, exist_ok=True)
-    for key, scenario in (("C14/only-if/Send", "send"), ("C14/only-if/Sync", "sync")):
-        if key not in findings:
+    # a scenario is run only if the record type it uses is among those wrongly accepted
+    for key, scenario, used in (("C14/only-if/Send", "send", ("rc_then_cell", 1)), ("C14/only-if/Sync", "sync", ("cell_only", 0))):
+        if key not in findings or not any((p["definition"], p["variant"]) == used for p in findings[key]):
             continue
         per = max(1, schedules // 3)
         jobs = [dict(cmd=[thrsim, "search", scenario, str(seed + i), str(per), kind, "--replay-dir", replay_dir], tag=kind) for i, kind in enumerate(("random", "pct2", "pct3"))]
